@@ -80,6 +80,107 @@ struct ledger_alloc
   bool operator!=(ledger_alloc const &) const { return false; }
 };
 
+
+// A "fancy pointer" allocator: allocator_traits<A>::pointer is a class type (as offset pointers into shared memory are).
+// The standard algorithms then cannot lower copies to memmove: overlapping shifts must be written for the direction they go.
+template <class T>
+class fancy_ptr
+{
+public:
+  using iterator_category = std::random_access_iterator_tag;
+  using value_type = std::remove_cv_t<T>;
+  using difference_type = std::ptrdiff_t;
+  using pointer = T *;
+  using reference = T &;
+  using element_type = T;
+  fancy_ptr() = default;
+  fancy_ptr(std::nullptr_t) {} // NOLINT
+  explicit fancy_ptr(T *p) : p_(p) {}
+  template <class U, class = std::enable_if_t<std::is_convertible_v<U *, T *> && !std::is_same_v<U, T>>>
+  fancy_ptr(fancy_ptr<U> const &o) : p_(o.get()) // NOLINT
+  {
+  }
+  T *get() const { return p_; }
+  T &operator*() const { return *p_; }
+  T *operator->() const { return p_; }
+  T &operator[](difference_type n) const { return p_[n]; }
+  explicit operator bool() const { return p_ != nullptr; }
+  fancy_ptr &operator++()
+  {
+    ++p_;
+    return *this;
+  }
+  fancy_ptr operator++(int)
+  {
+    fancy_ptr r(*this);
+    ++p_;
+    return r;
+  }
+  fancy_ptr &operator--()
+  {
+    --p_;
+    return *this;
+  }
+  fancy_ptr operator--(int)
+  {
+    fancy_ptr r(*this);
+    --p_;
+    return r;
+  }
+  fancy_ptr &operator+=(difference_type n)
+  {
+    p_ += n;
+    return *this;
+  }
+  fancy_ptr &operator-=(difference_type n)
+  {
+    p_ -= n;
+    return *this;
+  }
+  friend fancy_ptr operator+(fancy_ptr a, difference_type n) { return fancy_ptr(a.p_ + n); }
+  friend fancy_ptr operator+(difference_type n, fancy_ptr a) { return fancy_ptr(a.p_ + n); }
+  friend fancy_ptr operator-(fancy_ptr a, difference_type n) { return fancy_ptr(a.p_ - n); }
+  friend difference_type operator-(fancy_ptr a, fancy_ptr b) { return a.p_ - b.p_; }
+  friend bool operator==(fancy_ptr a, fancy_ptr b) { return a.p_ == b.p_; }
+  friend bool operator!=(fancy_ptr a, fancy_ptr b) { return a.p_ != b.p_; }
+  friend bool operator<(fancy_ptr a, fancy_ptr b) { return a.p_ < b.p_; }
+  friend bool operator>(fancy_ptr a, fancy_ptr b) { return a.p_ > b.p_; }
+  friend bool operator<=(fancy_ptr a, fancy_ptr b) { return a.p_ <= b.p_; }
+  friend bool operator>=(fancy_ptr a, fancy_ptr b) { return a.p_ >= b.p_; }
+  static fancy_ptr pointer_to(T &r) { return fancy_ptr(std::addressof(r)); }
+
+private:
+  T *p_ = nullptr;
+};
+template <class T>
+struct fancy_alloc
+{
+  using value_type = T;
+  using pointer = fancy_ptr<T>;
+  using const_pointer = fancy_ptr<T const>;
+  using size_type = std::size_t;
+  using difference_type = std::ptrdiff_t;
+  fancy_alloc() = default;
+  template <class U>
+  fancy_alloc(fancy_alloc<U> const &) // NOLINT
+  {
+  }
+  pointer allocate(std::size_t n) { return pointer(ledger_alloc<T>{}.allocate(n)); }
+  void deallocate(pointer p, std::size_t n) { ledger_alloc<T>{}.deallocate(p.get(), n); }
+  bool operator==(fancy_alloc const &) const { return true; }
+  bool operator!=(fancy_alloc const &) const { return false; }
+};
+template <class A>
+constexpr char const *alloc_suffix()
+{
+  return "";
+}
+template <>
+constexpr char const *alloc_suffix<fancy_alloc<int>>()
+{
+  return ",fancy-pointer";
+}
+
 // ------------------------------------------------------------------ element types
 struct pod24
 {
@@ -149,10 +250,10 @@ struct input_it
 };
 
 // ------------------------------------------------------------------ raw_vector histories
-template <class T>
+template <class T, class A = ledger_alloc<T>>
 struct rv_runner
 {
-  using RV = fcppt::container::raw_vector::object<T, ledger_alloc<T>>;
+  using RV = fcppt::container::raw_vector::object<T, A>;
   using SV = std::vector<T>;
   std::string e;
   vf::rng g{0};
@@ -258,7 +359,7 @@ struct rv_runner
     case 6:
     {
       // from a buffer: rep constructor
-      using B = fcppt::container::buffer::object<T, ledger_alloc<T>>;
+      using B = fcppt::container::buffer::object<T, A>;
       unsigned w = static_cast<unsigned>(g.below(6));
       unsigned n = w ? static_cast<unsigned>(g.below(w + 1)) : 0;
       vf::extend_case(" ctor(rep from buffer w=%u n=%u)", w, n);
@@ -552,7 +653,7 @@ struct rv_runner
             VF_COUNT("rv/reserve/equal");
           else
             VF_COUNT("rv/reserve/above");
-          T const *before = r.data();
+          auto const before = r.data();
           std::size_t capb = r.capacity();
           r.reserve(c);
           if (r.capacity() < c)
@@ -707,11 +808,11 @@ struct rv_runner
   }
 };
 
-template <class T>
+template <class T, class A = ledger_alloc<T>>
 void rv_histories(std::uint64_t total)
 {
-  rv_runner<T> R;
-  R.e = std::string("raw_vector<") + tname<T>() + ">";
+  rv_runner<T, A> R;
+  R.e = std::string("raw_vector<") + tname<T>() + alloc_suffix<A>() + ">";
   if (!vf::entry_enabled(R.e))
     return;
   vf::set_entry(R.e);
@@ -1146,6 +1247,7 @@ void body()
   rv_histories<int>(hist);
   rv_histories<unsigned char>(hist / 2);
   rv_histories<pod24>(hist / 2);
+  rv_histories<int, fancy_alloc<int>>(hist / 2);
   buffer_histories<int>(hist);
   buffer_histories<unsigned char>(hist / 4);
 #ifndef VF_FUZZ
